@@ -759,6 +759,33 @@ def _extract_kinds(path, mod):
     return kinds, why
 
 
+def _other_writers(mod, counter, lock, conn):
+    """methods that a request can reach (do_request and what it calls on self, the public get/post/… methods),
+    other than _generate_request_id, and that assign the counter, the lock or the connection part"""
+    impl = _find_code(mod, "_HttpConnImpl")
+    base = _find_code(mod, "_HttpConnBase")
+    methods = {c.co_name: c for c in impl.co_consts if hasattr(c, "co_code")}
+    protected = {x for x in (counter, lock, conn) if x}
+    todo, seen = ["do_request"], set()
+    while todo:
+        name = todo.pop()
+        if name in seen or name == "_generate_request_id" or name not in methods:
+            continue
+        seen.add(name)
+        for i in dis.get_instructions(methods[name]):
+            if i.opname in ("LOAD_ATTR", "LOAD_METHOD") and i.argval in methods:
+                todo.append(i.argval)
+    codes = [("_HttpConnImpl." + n, methods[n]) for n in sorted(seen)]
+    if base is not None:
+        codes += [("_HttpConnBase." + c.co_name, c) for c in base.co_consts
+                  if hasattr(c, "co_code") and c.co_name in ("get", "post", "put", "delete", "patch")]
+    out = []
+    for name, code in codes:
+        if any(i.opname in ("STORE_ATTR", "DELETE_ATTR") and i.argval in protected for i in dis.get_instructions(code)):
+            out.append(name)
+    return out
+
+
 def _check_order(req):
     """the order of the steps of do_request the hand-written model relies on: request arguments are built from
     the caller's values, the adapters process them, the headers are unpacked, then the id branch, then the
@@ -807,6 +834,7 @@ def analyse(repo):
             a.update(_extract_branch(req, a["counter"]))
             a["init"] = _extract_hdr_init(_load_codes.mod, path)
             _check_order(req)
+            a["writers"] = _other_writers(_load_codes.mod, a["counter"], a["lock"], a["conn"])
             a["kinds"], a["kinds_why"] = _extract_kinds(path, _load_codes.mod)
         except Exception as e:
             _ANALYSIS[key] = e
@@ -853,6 +881,9 @@ def translate(repo):
             "constructor takes `parent_conn.conn_impl`%s -/" % ("".join("; NOT: " + w for w in a["kinds_why"])),
             "def wrapKinds : List (List Char × Bool) := [" + ", ".join(
                 '("%s".toList, %s)' % (n, "true" if ok else "false") for n, ok in a["kinds"]) + "]",
+            "/-- methods reachable from a request, other than `_generate_request_id`, that assign the counter, the lock",
+            "or the connection part (e.g. a reset in an error handler of `do_request`) -/",
+            "def otherWriters : List (List Char) := [" + ", ".join('"%s".toList' % w for w in a["writers"]) + "]",
             "def cfg : Cfg := { prog := reqIdProgram, fmt := idFormat, test := hdrTest, name := hdrName,",
             "                   init := hdrInit, kinds := wrapKinds }",
             "end Gen.C16", ""]
@@ -1127,8 +1158,8 @@ THEOREMS = [
     "C16.program_ok", "C16.locked_unique", "C16.locked_gap_free", "C16.locked_in_order", "C16.par_ids",
     "C16.par_total", "C16.genSeq_ok", "C16.format_ok", "C16.format_injective", "C16.header_test_ok",
     "C16.caller_id", "C16.constructors_share", "C16.derived_shares", "C16.program_fuel", "C16.request_auto",
-    "C16.test_covers", "C16.hdr_init_ok", "C16.request_spec", "C16.request_caller_id",
-    "C16.request_auto_sent", "C16.par_world",
+    "C16.test_covers", "C16.no_other_writer", "C16.hdr_init_ok", "C16.request_spec", "C16.auth_chain_keeps",
+    "C16.request_supplied_id", "C16.request_caller_id", "C16.request_auto_sent", "C16.par_world",
 ]
 
 
@@ -1155,12 +1186,50 @@ def _is_id_name(name):
     return name.lower() == "x-request-id"
 
 
+FAILURES = {"url": "URLError", "http": "HTTPError", "timeout": "TimeoutError", "exc": "RuntimeError"}
+
+
+def make_failure(kind, request):
+    """what the opener raises after it was handed the request"""
+    import socket
+    import urllib.error
+    if kind == "url":
+        return urllib.error.URLError("connection refused")
+    if kind == "timeout":
+        return socket.timeout("timed out")
+    if kind == "http":
+        class _Fp:                      # the parts of http.client.HTTPResponse that do_request's logging touches
+            _method = request.get_method()
+            closed = False
+
+            def read(self, *a):
+                return b"no"
+
+            def close(self):
+                pass
+
+            def getheaders(self):
+                return []
+        return urllib.error.HTTPError(request.full_url, 503, "unavailable", {}, _Fp())
+    return RuntimeError("opener broke")
+
+
+def _failure_matches(kind, e):
+    import socket
+    import urllib.error
+    want = {"url": urllib.error.URLError, "http": urllib.error.HTTPError, "timeout": socket.timeout, "exc": RuntimeError}[kind]
+    if kind == "url" and isinstance(e, urllib.error.HTTPError):
+        return False
+    return isinstance(e, want)
+
+
 class _Capture:
     """replacement of urllib.request.OpenerDirector.open (as tests/mock_http does), remembering which
     thread sent what under 'X-request-id'"""
 
     def __init__(self):
         self.sent = {}
+        self.fail = {}         # thread -> how the opener fails on the next request of that thread
 
     def __enter__(self):
         from unittest.mock import patch
@@ -1169,6 +1238,9 @@ class _Capture:
 
         def opener(_self, request):
             cap.sent.setdefault(threading.get_ident(), []).append(request.get_header("X-request-id"))
+            kind = cap.fail.pop(threading.get_ident(), None)
+            if kind is not None:
+                raise make_failure(kind, request)
             return _FakeHttpResponse(request.method, 200, b"")
         import urllib.request
         director = urllib.request.OpenerDirector
@@ -1197,6 +1269,7 @@ class _Real:
         self.fams = []         # dict(impl=, cp_line=, ids=)
         self.extra_impls = []
         self.dicts, self.dict_orig = [], []
+        self.id_values = []    # per connection: ids the caller's adapters of the chain may supply
         self.counter_attr, self.conn_attr, _ = _names()
 
     def canon(self, fam, v):
@@ -1224,13 +1297,25 @@ class _Real:
         c = self.ch.HttpConn(data)
         wrap_locks(c.conn_impl)
         self.fams.append({"impl": c.conn_impl, "cp_line": cp, "ids": ids})
+        self.id_values.append([])
         self.conns.append((c, len(self.fams) - 1))
         return len(self.conns) - 1
 
-    def wrap(self, c, kind):
+    def wrap(self, c, kind, spec="none"):
         parent, fam = self.conns[c]
         ch = self.ch
-        if kind == "bauth":
+        if kind in ID_KINDS:
+            value = dec_str(spec.split(":", 1)[1])
+            polite = kind == "idpolite"
+
+            class IdAdapter(ch.RequestAdapter):      # the caller's way to pass on the id of the request being served
+                def process_req_args(self, req_args):
+                    if polite and any(h.lower() == "x-request-id" for h in req_args.headers):
+                        return
+                    req_args.headers["X-Request-ID"] = value
+            d = ch.HttpConn(parent, adapters=[IdAdapter()])
+            self.id_values.append(self.id_values[c] + [value])
+        elif kind == "bauth":
             d = ch.BAuthConn(parent, *AUTH_ARGS["bauth"])
         elif kind == "token":
             d = ch.TokenAuthConn(parent, *AUTH_ARGS["token"])
@@ -1243,6 +1328,8 @@ class _Real:
         if all(d.conn_impl is not f["impl"] for f in self.fams) and d.conn_impl not in self.extra_impls:
             wrap_locks(d.conn_impl)        # not shared with the parent (the property is then broken)
             self.extra_impls.append(d.conn_impl)
+        if kind not in ID_KINDS:
+            self.id_values.append(list(self.id_values[c]))
         self.conns.append((d, fam))
         return len(self.conns) - 1
 
@@ -1259,12 +1346,25 @@ class _Real:
         pairs = dec_hdrs(t)
         return (dict(pairs) if pairs else None), pairs
 
-    def send(self, c, hdrs, method="get"):
+    def send(self, c, hdrs, method="get", fail=None):
+        """fail: the opener raises after it got the request; returns the canonical name of what came out"""
         conn, _ = self.conns[c]
         kw = {"headers": hdrs} if hdrs is not None else {}
         if method in ("post", "put", "patch"):
             kw["data"] = {"k": 1}
-        getattr(conn, method)("p", **kw)
+        if fail is None:
+            getattr(conn, method)("p", **kw)
+            return None
+        self.cap.fail[threading.get_ident()] = fail
+        try:
+            getattr(conn, method)("p", **kw)
+        except BaseException as e:
+            if _failure_matches(fail, e) and threading.get_ident() not in self.cap.fail:
+                return FAILURES[fail]
+            raise
+        finally:
+            self.cap.fail.pop(threading.get_ident(), None)
+        return "nothing"
 
 
 AUTH_ARGS = {"bauth": ("user", "pw"), "token": ("tok",), "client": ("cn", "cid", "cs")}
@@ -1335,6 +1435,7 @@ def _run_lines(case):
     except AttributeError:
         pass
     with _Capture() as cap:
+        w.cap = cap
         for line in lines:
             tok = line.split()
             d = {"kind": tok[0] if tok else "?"}
@@ -1347,7 +1448,7 @@ def _run_lines(case):
                     if int(tok[1]) >= len(w.conns):
                         replies.append("err IndexError")
                     else:
-                        replies.append("ok %d" % w.wrap(int(tok[1]), tok[2]))
+                        replies.append("ok %d" % w.wrap(int(tok[1]), tok[2], tok[3] if len(tok) > 3 else "none"))
                 elif tok[0] == "dict":
                     replies.append("ok %d" % w.new_dict(dec_hdrs(tok[1])))
                 elif tok[0] == "req":
@@ -1356,15 +1457,20 @@ def _run_lines(case):
                         replies.append("err IndexError")
                     else:
                         fam = w.conns[c][1]
+                        d["fam"] = fam
                         hdrs, pairs = w.source(tok[2])
                         cap.take()
-                        w.send(c, hdrs, tok[3] if len(tok) > 3 else "get")
+                        fail = tok[4] if len(tok) > 4 and tok[4] in FAILURES else None
+                        raised = w.send(c, hdrs, tok[3] if len(tok) > 3 else "get", fail)
                         got = cap.take()
                         sent = w.canon(fam, got[0]) if len(got) == 1 else "<%d requests>" % len(got)
-                        d.update(fam=fam, supplied=[v for k, v in pairs if _is_id_name(k)], sent=sent)
+                        d.update(fam=fam, supplied=[v for k, v in pairs if _is_id_name(k)] + w.id_values[c], sent=sent)
                         after = ""
                         if tok[2].startswith("#"):     # the caller's object after the call
                             after = " dict=" + enc_hdrs([(k, w.canon(fam, _val(v))) for k, v in hdrs.items()])
+                        if raised is not None:
+                            d["raised"] = raised
+                            after += " raised " + raised
                         replies.append("sent " + _show(sent) + after)
                 elif tok[0] == "burst":
                     c, n = int(tok[1]), int(tok[2])
@@ -1376,7 +1482,7 @@ def _run_lines(case):
                         for _ in range(n):
                             w.send(c, None)
                         got = [w.canon(fam, v) for v in cap.take()]
-                        d.update(fam=fam, sent=got, n=n)
+                        d.update(fam=fam, sent=got, n=n, supplied=list(w.id_values[c]))
                         replies.append("ok %s %s" % (_show(got[0]), _show(got[-1])) if got else "ok none none")
                 elif tok[0] in ("par", "parw"):
                     replies.append(_run_par(w, cap, tok, d, gen_code))
@@ -1393,8 +1499,10 @@ def _run_lines(case):
 
 def _run_par(w, cap, tok, d, gen_code):
     c = int(tok[1])
-    raw = [[] if t == "." else [(int(r.split("@")[0]), r.split("@")[1]) for r in t.split("+")]
+    raw = [[] if t == "." else [(int(r.split("@")[0]), r.split("@")[1].split("!")[0]) for r in t.split("+")]
            for t in tok[2].split("|")]
+    fails = [[] if t == "." else [(r.split("!")[1] if "!" in r else None) for r in t.split("+")]
+             for t in tok[2].split("|")]
     if any(src.startswith("#") and int(src[1:]) >= len(w.dicts) for t in raw for _, src in t):
         return "err IndexError"
     # (connection, object passed as headers, what the caller put into it)
@@ -1418,8 +1526,8 @@ def _run_par(w, cap, tok, d, gen_code):
     def body(k):
         def run():
             idents[k] = threading.get_ident()
-            for rc, hdrs, _pairs in threads[k]:
-                w.send(rc, hdrs)
+            for j, (rc, hdrs, _pairs) in enumerate(threads[k]):
+                w.send(rc, hdrs, "get", fails[k][j])
         return run
 
     f = Forced(codes, [body(k) for k in range(len(threads))])
@@ -1429,7 +1537,7 @@ def _run_par(w, cap, tok, d, gen_code):
         got = [w.canon(fam, v) for v in cap.sent.pop(idents[k], [])] if idents[k] is not None else []
         out.append(got)
     d.update(fam=fam, status=status, steps=list(f.steps),
-             threads=[[{"supplied": [v for kk, v in pairs if _is_id_name(kk)],
+             threads=[[{"supplied": [v for kk, v in pairs if _is_id_name(kk)] + w.id_values[rc],
                         "sent": out[k][j] if j < len(out[k]) else "<missing>"}
                        for j, (rc, _hdrs, pairs) in enumerate(t)] for k, t in enumerate(threads)])
     errs = [e for e in f.exc if e is not None]
@@ -1504,7 +1612,7 @@ def oracle(case, replies):
         elif d["kind"] == "burst":
             if len(d["sent"]) != d["n"]:
                 return "missing-request: %s sent %d of %d requests" % (where, len(d["sent"]), d["n"])
-            groups = [[{"supplied": [], "sent": v}] for v in d["sent"]]
+            groups = [[{"supplied": d.get("supplied", []), "sent": v}] for v in d["sent"]]
         else:
             groups = None
         if groups is not None:            # sequential requests, in order
@@ -1622,9 +1730,16 @@ def _prog_info():
     return 37, 2, 17
 
 
-def wrap_line(parent, kind):
+ID_KINDS = {"idset": "set", "idpolite": "polite"}
+
+
+def wrap_line(parent, kind, value=None):
+    """kinds idset / idpolite: a plain HttpConn with an adapter of the caller's that puts `value` under
+    X-Request-ID (always / unless the request already has an id in any capitalisation)"""
+    if kind in ID_KINDS:
+        return "wrap %d %s %s:%s" % (parent, kind, ID_KINDS[kind], enc_str(value or "Zadapter"))
     a = auth_value(kind)
-    return "wrap %d %s %s" % (parent, kind, "none" if a is None else enc_str(a))
+    return "wrap %d %s %s" % (parent, kind, "none" if a is None else "auth:" + enc_str(a))
 
 
 def _prelude(rng, lines, nfam_max=2, p_dicts=0.4):
@@ -1641,7 +1756,9 @@ def _prelude(rng, lines, nfam_max=2, p_dicts=0.4):
         for _ in range(rng.choice([0, 1, 1, 2, 3])):
             parent = rng.choice(mine)
             kind = rng.choice(["plain", "prefix"] if auth[parent] else KINDS)
-            lines.append(wrap_line(parent, kind))
+            if rng.random() < 0.12:
+                kind = rng.choice(sorted(ID_KINDS))
+            lines.append(wrap_line(parent, kind, _rand_value(rng)))
             auth[nconn] = auth[parent] or kind in ("bauth", "token", "client")
             mine.append(nconn)
             nconn += 1
@@ -1663,9 +1780,10 @@ def _src(rng, ndict, p_none=0.55):
     return enc_hdrs(_rand_headers(rng, p_none))
 
 
-def _req_line(rng, conns, p_none=0.55, ndict=0):
+def _req_line(rng, conns, p_none=0.55, ndict=0, p_fail=0.08):
     m = rng.choice(METHODS) if rng.random() < 0.5 else "get"
-    return "req %d %s %s" % (rng.choice(conns), _src(rng, ndict, p_none), m)
+    fail = " " + rng.choice(sorted(FAILURES)) if rng.random() < p_fail else ""
+    return "req %d %s %s%s" % (rng.choice(conns), _src(rng, ndict, p_none), m, fail)
 
 
 def _sched(rng, kind, nthreads, nreq, L, A, R):
@@ -1714,7 +1832,9 @@ def _par_line(rng, conns, kind, L, A, R, nthreads=None, p_none=0.8, dicts=()):
                 reqs.append((rng.choice(conns), enc_hdrs(h), h))
         threads.append(reqs)
         nreq.append(sum(1 for _, _, h in reqs if not any(_is_id_name(k) for k, _ in h)))
-    spec = "|".join("." if not t else "+".join("%d@%s" % (c, src) for c, src, _ in t) for t in threads)
+    spec = "|".join("." if not t else "+".join(
+        "%d@%s%s" % (c, src, "!" + rng.choice(sorted(FAILURES)) if rng.random() < 0.1 else "") for c, src, _ in t)
+        for t in threads)
     return "par %d %s %s" % (conns[0], spec, enc_sched(_sched(rng, kind, nthreads, nreq, L, A, R)))
 
 
@@ -1747,10 +1867,22 @@ def corpus():
             lines += [wrap_line(p, kind), "req %d _" % n, "req %d _" % p, "req 0 _"]
             n += 1
     out.append({"lines": lines, "meta": {"kind": "corpus-constructors"}})
+    # ids supplied through an adapter of the caller's: sent as they are, no number is taken
+    out.append({"lines": ["new %s 1" % x, wrap_line(0, "idset", "Zfrom-adapter"), wrap_line(0, "idpolite", "Zpolite"),
+                          wrap_line(1, "bauth"), "req 0 _", "req 1 _", "req 2 _", "req 0 _", "req 3 _ post",
+                          "req 2 %s" % enc_hdrs([("x-request-id", "Zown")]), "req 1 %s" % enc_hdrs([("x-request-id", "Zown")]),
+                          "par 0 1@_+0@_|2@_+0@_ 0*4,1*8", "req 0 _"], "meta": {"kind": "corpus-id-adapters"}})
     # one caller dict passed to many requests, through several connections of the family, also concurrently
     out.append({"lines": ["new %s 1" % x, wrap_line(0, "token"), "dict " + enc_hdrs([("Accept", "*/*")]),
                           "req 0 #0", "req 0 #0 post", "req 1 #0", "par 0 0@#0+1@#0|1@#0|0@#0 0*4,1*9,2*2", "req 1 #0 put",
                           "dict _", "req 0 #1", "req 0 #1"], "meta": {"kind": "corpus-dict-reuse"}})
+    # the opener fails after it was handed the request (network error, HTTP error status, timeout, anything):
+    # the failed request had its id; the numbering goes on, on the base and on derived connections
+    lines = ["new %s 1" % x, wrap_line(0, "bauth"), wrap_line(0, "plain"), "req 0 _"]
+    for kind in sorted(FAILURES):
+        lines += ["req 1 _ get %s" % kind, "req 0 _", "req 2 _ post %s" % kind, "req 1 _", "req 0 _ put %s" % kind, "req 2 _"]
+    lines += ["par 0 0@_!url+0@_|1@_!http+2@_|2@_!timeout 0*7,1*9,2*3", "req 0 _"]
+    out.append({"lines": lines, "meta": {"kind": "corpus-failing-opener"}})
     out.append({"lines": ["new %s 1" % x, "req 0 _", "burst 0 10050", "req 0 _", "burst 0 3"],
                 "meta": {"kind": "corpus-burst-10000"}})
     # self-test of the search machinery: on the extracted program the model finds no schedule that repeats a number
@@ -1869,6 +2001,15 @@ def search_cases(rng, tier):
             c = 1 if kind else 0
             lines += ["req %d #0" % c, "req %d #0 post" % c, "req 0 #0", "par 0 0@#0|%d@#0 0*3,1*4" % c, "req 0 _"]
             yield {"lines": lines, "meta": {"kind": "search-dict-reuse"}}
+    # 2b'. ids that come from an adapter of the caller's
+    for kind in sorted(ID_KINDS):
+        yield {"lines": ["new %s 1" % x, wrap_line(0, kind, "Zad"), "req 0 _", "req 1 _", "req 0 _", "req 1 _ post", "req 0 _"],
+               "meta": {"kind": "search-id-adapter"}}
+    # 2c. requests that fail in the opener, then more requests
+    for kind in sorted(FAILURES):
+        for c in (0, 1):
+            yield {"lines": ["new %s 1" % x, wrap_line(0, "plain"), "req 0 _", "req %d _ get %s" % (c, kind), "req 0 _", "req 1 _",
+                             "par 0 0@_!%s|1@_ 0*5" % kind, "req 0 _"], "meta": {"kind": "search-failing-opener"}}
     # 3. the real function on a brand-new connection (first call / first call), two threads stopped at every
     #    pair of positions, then two calls each
     for a in range(0, L + 3):
@@ -1907,7 +2048,7 @@ def _refs(line):
         conns.add(int(t[1]))
         for th in t[2].split("|"):
             for r in ([] if th == "." else th.split("+")):
-                c, src = r.split("@")
+                c, src = r.split("!")[0].split("@")
                 conns.add(int(c))
                 if src.startswith("#"):
                     dicts.add(int(src[1:]))
@@ -1988,11 +2129,15 @@ def tags(case, replies):
                 yield "req:auto" if not r.startswith("sent none") else "req:no-id"
             if len(t) > 3 and t[3] in ("post", "put", "patch"):
                 yield "req:with-body"
+            if len(t) > 4:
+                yield "req:opener-fails:" + t[4]
         elif t[0] in ("par", "parw"):
             yield "par:threads=%d" % len(t[2].split("|"))
             yield "par:reply=" + r.split()[0] + (":" + r.split()[1] if r.startswith("err") else "")
             if "#" in t[2]:
                 yield "par:caller-dict"
+            if "!" in t[2]:
+                yield "par:opener-fails"
         elif t[0] == "wrap":
             p = int(t[1])
             yield "wrap:%s-over-%s" % (t[2], parent_kind.get(p, "?"))
@@ -2004,6 +2149,8 @@ RULE = ("sequential scenarios (1-2 connection families built from 4 forms of con
         "over every kind of parent, 3-25 requests with no / unrelated / near-miss / caller-supplied id headers in many "
         "capitalisations, passed in a dict built for the call or in one of 1-3 dicts the caller keeps and passes "
         "again (also through other connections of the family and concurrently), with and without a json body, "
+        "8 % of them failing in the opener after the request was handed over (URLError, HTTPError, timeout, "
+        "RuntimeError) and followed by further requests, "
         "bursts across 9999->10000), "
         "forced interleavings of 2-4 real threads x 0-3 requests inside the real _generate_request_id (random runs, "
         "round robin, everybody stopped inside the locked section / in the prologue of its first call, whole-call "
